@@ -235,10 +235,10 @@ def http_impl(kind, pieces, headreq=False, close=False, maxline=None, maxhdrs=No
         hdrs = [(l1(k), l1(v)) for k, v in p.headers.items()]
         flat += (enc_list(enc_b, start) + [version, status] +
                  enc_list(lambda kv: enc_b(kv[0]) + enc_b(kv[1]), hdrs) + [1 if p.chunked else 0] +
-                 enc_oz(p.length))
+                 enc_oz(p.length) + [1 if p.persisted else 0])
         view.update(start=[s.decode("latin-1") for s in start], version=version, status=status,
                     headers=[(k.decode("latin-1"), v.decode("latin-1")) for k, v in hdrs],
-                    chunked=bool(p.chunked), length=p.length)
+                    chunked=bool(p.chunked), length=p.length, persisted=bool(p.persisted))
     parms = [(bytes(k), None if v is None else bytes(v)) for k, v in (p.parms or {}).items()]
     trails = [(l1(k), l1(v)) for k, v in (p.trails or {}).items()]
     flat += (enc_b(bytes(p.body)) + enc_list(lambda kv: enc_b(kv[0]) + enc_ob(kv[1]), parms) +
